@@ -119,9 +119,19 @@ def rule_mark(R):
             R.ob("mark/after-reason", ok1,
                  "session_present is set only after the CONNACK reason code was checked and found successful", where=c.span)
             # dominated by the Ok edge of the property validation result
-            ps = [si for si in hcode.result_switches(lambda x: is_call(peel(x), "FnMut::call_mut", "FnOnce::call_once", "Fn::call")
-                                                     or (peel(x)[0] == "call" and "closure" in show(peel(x))[:80]))
-                  if si["enum"] == "core::result::Result"]
+            # the validation result: the Result produced by running the closure that walks the CONNACK properties --
+            # called in place `(|| { for .. })()` or handed to an iterator adaptor (`iter().try_for_each(|p| ..)`)
+            arms = roles.connack_property_arms(f)
+            walkers = set(a["body"].name for a in arms.values())
+
+            def is_validation(x):
+                x = peel(x)
+                if not (isinstance(x, tuple) and x[0] == "call"):
+                    return False
+                if is_call(x, "FnMut::call_mut", "FnOnce::call_once", "Fn::call") or "closure" in show(x)[:80]:
+                    return True
+                return any(y[0] == "agg" and y[1] == "closure" and y[2] in walkers for a in x[3] for y in walk(a))
+            ps = [si for si in hcode.result_switches(is_validation) if si["enum"] == "core::result::Result"]
             p_edges = []
             for si in ps:
                 if si["edges"].get("Ok") is not None:
